@@ -12,6 +12,8 @@ pub struct Partition {
     pub module_of: Vec<usize>,
     pub public: Vec<bool>,
     pub imports: Vec<Vec<usize>>,
+    /// per declaration: its name in the source text of its file
+    pub src_names: Vec<String>,
 }
 
 /// Dimension audit: the extended splits (every third program).  Default = the splits as they were.
@@ -96,6 +98,8 @@ pub fn partition_ext(p: &Program, k: usize, rng: &mut Rng, closed: bool, ext: &E
         }
     }
     let refs: Vec<Vec<usize>> = (1..=n).map(|a| p.refs(a)).collect();
+    // what travels with an import of declaration b: the definition of a constant / structure, the SIGNATURE of a function
+    let travels: Vec<Vec<usize>> = (1..=n).map(|b| if p.is_container(b) { refs[b - 1].clone() } else { p.sig_refs(b) }).collect();
     let mut public = vec![false; n];
     let mut imports: Vec<Vec<usize>> = vec![Vec::new(); k];
     // minimal: what a programmer writes -- pub what other files mention, import the files mentioned
@@ -109,8 +113,8 @@ pub fn partition_ext(p: &Program, k: usize, rng: &mut Rng, closed: bool, ext: &E
             let mut stack: Vec<usize> = (1..=n).filter(|a| module_of[a - 1] == m).flat_map(|a| refs[a - 1].clone()).collect();
             if closed {
                 for b in 1..=n {
-                    if public[b - 1] && p.is_container(b) && imports[m].contains(&module_of[b - 1]) {
-                        stack.extend(refs[b - 1].iter().copied());
+                    if public[b - 1] && imports[m].contains(&module_of[b - 1]) {
+                        stack.extend(travels[b - 1].iter().copied());
                     }
                 }
             }
@@ -119,9 +123,7 @@ pub fn partition_ext(p: &Program, k: usize, rng: &mut Rng, closed: bool, ext: &E
                     continue;
                 }
                 need.push(b);
-                if p.is_container(b) {
-                    stack.extend(refs[b - 1].iter().copied());
-                }
+                stack.extend(travels[b - 1].iter().copied());
             }
             for b in need {
                 if !public[b - 1] {
@@ -140,6 +142,8 @@ pub fn partition_ext(p: &Program, k: usize, rng: &mut Rng, closed: bool, ext: &E
         }
     }
     let mut files = Vec::new();
+    // the name every declaration has in the source text of its file (private items of extended splits are renamed)
+    let mut src_names: Vec<(usize, String)> = Vec::new();
     for m in 0..k {
         let mut src = String::new();
         // The import lines stand after the first `ipos` own declarations: the documentation does not say where
@@ -173,6 +177,7 @@ pub fn partition_ext(p: &Program, k: usize, rng: &mut Rng, closed: bool, ext: &E
         if ipos >= own {
             src.push_str(&import_text);
         }
+        src_names.extend((1..=n).filter(|a| module_of[a - 1] == m).map(|a| (a, p.name(a))));
         if ext.rename_private {
             // Private items are mentioned in their own file only.  (In a minimal split the definition of a public
             // constant / structure may mention a private one, which the importer re-analyses -- a known finding --
@@ -200,10 +205,18 @@ pub fn partition_ext(p: &Program, k: usize, rng: &mut Rng, closed: bool, ext: &E
                 }
             }
             src = rename_idents(&src, &map);
+            for (a, nm) in src_names.iter_mut() {
+                if let Some((_, to)) = map.iter().find(|(from, _)| from == nm) {
+                    if module_of[*a - 1] == m {
+                        *nm = to.clone();
+                    }
+                }
+            }
         }
         files.push((file_name(ext, m), src));
     }
-    Partition { files, module_of, public, imports }
+    src_names.sort();
+    Partition { files, module_of, public, imports, src_names: src_names.into_iter().map(|(_, s)| s).collect() }
 }
 
 fn behaviour(ok: bool, ir: Option<&String>, panic: Option<&String>, diags: Value, lints: Value) -> Value {
@@ -349,7 +362,8 @@ pub fn split_record(seed: u64, i: usize, closed: bool, verbose: bool, run_order:
     }
     let mut decls: Vec<Value> = (1..=n)
         .map(|a| json!({"n": p.name(a), "m": sp.part.module_of[a - 1] + 1, "pub": sp.part.public[a - 1],
-                        "cont": p.is_container(a), "k": p.kind(a),
+                        "cont": p.is_container(a), "k": p.kind(a), "src": sp.part.src_names[a - 1],
+                        "sig": p.sig_refs(a).iter().map(|b| p.name(*b)).collect::<Vec<_>>(),
                         "refs": p.refs(a).iter().map(|b| p.name(*b)).collect::<Vec<_>>()}))
         .collect();
     let mut imports: Vec<Vec<usize>> = sp.part.imports.iter().map(|v| v.iter().map(|j| j + 1).collect::<Vec<_>>()).collect();
@@ -357,6 +371,7 @@ pub fn split_record(seed: u64, i: usize, closed: bool, verbose: bool, run_order:
         // the unrelated module: private declarations that mention each other only (names made unique for the record)
         for a in 1..=u.len() {
             decls.push(json!({"n": format!("U_{}", u.name(a)), "m": sp.k, "pub": false, "cont": u.is_container(a), "k": u.kind(a),
+                              "src": if u.kind(a) == "struct" { format!("U{}", u.name(a)) } else { u.name(a) }, "sig": [],
                               "refs": u.refs(a).iter().map(|b| format!("U_{}", u.name(*b))).collect::<Vec<_>>()}));
         }
         imports.push(Vec::new());
